@@ -23,7 +23,11 @@ Definition to_unsigned (v bits : Z) : res Z :=
 Definition payload (c : hconst) : res (Z * Z) :=
   match c with
   | IntVal v w => bind (to_unsigned v (Z.shiftl 1 w)) (fun u => Ok (w, u))
-  | UnsignedIntVal v w => bind (unsigned_post_init v w) (fun _ => Ok (unsigned_payload v w))
+  | UnsignedIntVal v w =>
+      bind (unsigned_post_init v w) (fun _ =>
+        let '(w1, p1) := unsigned_payload v w in   (* JSON form, to_value *)
+        let '(w2, p2) := unsigned_model v w in     (* model form, to_model *)
+        if (w1 =? w2) && (p1 =? p2) then Ok (w1, p1) else Raise SerialisationsDiffer)
   end.
 
 (* ExprBuilder (NodeTransformer): visit_UnaryOp either folds or generic_visits *)
@@ -51,6 +55,13 @@ Definition check_expr (ty : kind) (e : lexpr) : res Z :=
 (* ... and what the compiler writes into the HUGR for it *)
 Definition compile_const (ty : kind) (v : Z) : res (Z * Z) :=
   bind (check_const ty v) (fun k => payload (literal_hugr k v)).
+(* a literal in a position without type hint (`x = 5`), then used at type [ty] *)
+Definition compile_synth (ty : kind) (e : lexpr) : res (Z * Z) :=
+  match build e with
+  | LConst v => bind (synth_const v) (fun k => if kind_eqb k ty then payload (literal_hugr k v)
+                                               else Raise (TypeMismatchError ty k))
+  | _ => Raise NotALiteral
+  end.
 Definition compile_expr (ty : kind) (e : lexpr) : res (Z * Z) :=
   match build e with
   | LConst v => compile_const ty v
